@@ -1449,6 +1449,11 @@ func scnWitness(g *Gen, budget int, arg string) {
 		sp2 := g.standardGenesis(1, 1)
 		sp2.used = []string{"1:5", "1:5"}
 		g.emit(Op{Kind: "genesis-validate", KV: sp2.kv()})
+	case "C19-short-remote-token":
+		g.config()
+		sp := g.standardGenesis(1, 1)
+		sp.pairs = append(sp.pairs, fmt.Sprintf("%d:%x:%s", 7, token(0)[:20], hs(mintDenom)))
+		g.emit(Op{Kind: "genesis-validate", KV: sp.kv()})
 	case "C20-paginate-reverse":
 		g.initStandard(2, 1)
 		g.emit(Op{Kind: "query", Sub: "Attesters", KV: newKV().set("key", "ff").set("limit", "1").set("reverse", "1")})
